@@ -4,6 +4,8 @@ package main
 import (
 	"context"
 	"fmt"
+	"github.com/criyle/go-sandbox/pkg/mount"
+	"golang.org/x/sys/unix"
 	"os"
 	"runtime"
 	"strings"
@@ -135,6 +137,20 @@ func main() {
 					// Build with a root under which the temporary directory cannot be created
 					b := container.Builder{Root: "/nonexistent-root-" + token, TmpRoot: "x"}
 					e2, berr := b.Build()
+					if berr == nil {
+						e2.Destroy()
+					}
+				case "buildfail_conf":
+					// Build that gets as far as configuring the started container and fails there (a bind source that does not exist)
+					e2, berr := hx.NewEnvWith(scratch, nil, func(b *container.Builder) {
+						b.Mounts = append(b.Mounts, mount.Mount{Source: "/nonexistent-source-" + token, Target: "nx", Flags: unix.MS_BIND | unix.MS_RDONLY})
+					})
+					if berr == nil {
+						e2.Destroy()
+					}
+				case "buildfail_init":
+					// ... or whose InitCommand fails
+					e2, berr := hx.NewEnvWith(scratch, nil, func(b *container.Builder) { b.InitCommand = []string{"/nonexistent-init-" + token} })
 					if berr == nil {
 						e2.Destroy()
 					}
